@@ -136,7 +136,8 @@ class DWTInverse(nn.Module):
         for h in yh[::-1]:
             if h is None:
                 h = torch.zeros(ll.shape[0], ll.shape[1], 3, ll.shape[-2],
-                                ll.shape[-1], device=ll.device)
+                                ll.shape[-1], device=ll.device,
+                                dtype=ll.dtype)
 
             # 'Unpad' added dimensions
             if ll.shape[-2] > h.shape[-2]:
